@@ -72,9 +72,17 @@ def r1(ck, prog, run):
     lines = []
     for k, nc in enumerate(counts):
         lines += entry_lines(k, nc)
-    table = ck.attempt("R1", fp.where, f"from_polyco(text with {len(counts)} entries, NCOEFF = {counts})", "evaluates on symbolic polyco text",
-                       lambda: run_from_polyco(prog, lines)[0])
+    holder = {}
+
+    def _go():
+        t_, ev_ = run_from_polyco(prog, lines)
+        holder["ev"] = ev_
+        return t_
+    table = ck.attempt("R1", fp.where, f"from_polyco(text with {len(counts)} entries, NCOEFF = {counts})", "evaluates on symbolic polyco text", _go)
     if table is not None:
+        lossy = [t for t in holder["ev"].trace if t[0] == "time-from-double"]
+        ck.same("R1", fp.where, "TMID -> astropy Time", "the decimal text of TMID reaches Time() as text (or as two doubles): one double resolves a modern MJD to about a "
+                "microsecond, i.e. ~1e-4 cycles at F0 = 100 Hz, far above the 1e-8 cycle bound", not lossy, found=str([t[1] for t in lossy])[:160], nontrivial=True)
         entries = table.items if isinstance(table, ListV) else []
         ck.same("R1", fp.where, "number of entries", "every entry of the file is read (line count per entry is ceil(NCOEFF/3))", len(entries) == len(counts),
                 found=f"{len(entries)} entries", nontrivial=True)
